@@ -98,6 +98,11 @@ def scenario(seed):
         sizes = [int(base * rnd.uniform(0.93, 1.07)) for _ in range(K)]
     else:
         sizes = [int(rnd.randint(200, 801)) for _ in range(K)]
+    if seed % 4 == 1:
+        # large, near-equal populations (the upper end of the allowed sizes), written population after population
+        # ("whatever the order of events in the file": see the event order below)
+        base = int(rnd.randint(700, 790))
+        sizes = [int(base * rnd.uniform(0.97, 1.03)) for _ in range(K)]
     if seed % 5 == 3:
         # the float-file / log-clustering scenarios: the dimmest population of the first channel piles up at the lower limit
         chans[0]['sat_lo'] = True
@@ -151,6 +156,9 @@ def run_scenario(sc):
     pop = np.concatenate([np.full(sc['sizes'][p], p) for p in range(K)])
     data = np.stack([np.concatenate(cols[c]) for c in range(nch)] + [np.full(len(pop), 500)], axis=1)
     perm = rnd.permutation(len(pop))
+    if sc['seed'] % 4 == 1:
+        # grouped: dimmest population first (or brightest first) instead of a random order
+        perm = np.arange(len(pop)) if sc['seed'] % 8 == 1 else np.arange(len(pop))[::-1]
     data, pop = data[perm], pop[perm]
     names = ['FL%d' % (c + 1) for c in range(nch)] + ['FSC']
     d = os.environ.get('C02_DIR')
